@@ -12,6 +12,8 @@
         "\r\nname: " separators http_header_response_insert() wrote, internal X-Sendfile /
         X-LIGHTTPD-* headers omitted, "date" and "server" added when absent; nothing at all
         (RST_STREAM INTERNAL_ERROR) when the expanded size exceeds 65535
+    h2_send_1xx() / h2_send_end_stream_trailers() / h2_send_headers_block()
+                                       -> `interimFields` / `trailerFields` / `blockFields`
     h2_parse_frame_settings(SETTINGS_HEADER_TABLE_SIZE) -> `peerTableSize`
 
   The id maps are regenerated from h2.c / http_header.c on every run
@@ -88,12 +90,18 @@ def Resp.insert (r : Resp) (k v : Bytes) : Resp :=
 def omitHeader (k : Bytes) : Bool :=
   lower k == ofString "x-sendfile" || (lower k).take 11 == ofString "x-lighttpd-"
 
-/-- the lower-cased name h2_send_headers() emits for an element -/
+/-- the name the peer sees for an element: for ids with a static-table index
+    (`http_header_lshpack_idx[id]`) lshpack encodes the name by that index — the
+    octets h2_send_headers() copied out of `http_header_lc[id]` only serve
+    lshpack's own table look-ups; otherwise it is the copied / lower-cased name -/
 def emitName (e : RespHdr) : Bytes :=
   if e.id ≠ 0 then
-    -- memcpy(v, http_header_lc[ds->ext], klen) out of a zero-padded 32-octet row
-    let row := Extracted.httpHeaderLc.getD e.id []
-    (row ++ List.replicate (32 - row.length) 0).take e.key.length
+    match Extracted.httpHeaderLshpackIdx.getD e.id 0 with
+    | 0 =>
+      -- memcpy(v, http_header_lc[ds->ext], klen) out of a zero-padded 32-octet row
+      let row := Extracted.httpHeaderLc.getD e.id []
+      (row ++ List.replicate (32 - row.length) 0).take e.key.length
+    | idx + 1 => (staticTable.getD idx ([], [])).1
   else lower e.key
 
 /-- the do/while of h2_send_headers(): pieces of a value that holds repeated fields
@@ -144,6 +152,76 @@ def respFields (status : Nat) (r : Resp) (serverTag : Option Bytes) : Option (Li
       | some t => if r.tags.contains Extracted.hdrServer then [] else [(ofString "server", t)]
       | none => []
     some ((ofString ":status", statusBytes status) :: fs ++ date ++ server)
+
+/-! ### h2_send_headers_block(): interim (1xx) responses and response trailers
+
+  A text block "name: value\r\n ... \r\n" is cut into lines
+  (http_header_parse_hoff) and every line into name / value. -/
+
+/-- lines up to the first blank line, each with its line end; `none` if the blank
+    line is missing or comes first, or the text is longer than 65535 -/
+def headLines (text : Bytes) : Option (List Bytes) :=
+  let rec go : Nat → Bytes → List Bytes → Option (List Bytes)
+    | 0, _, _ => none
+    | fuel + 1, t, acc =>
+      match t.idxOf? lf with
+      | none => none
+      | some i =>
+        let line := t.take (i + 1)
+        if line = [lf] ∨ line = [cr, lf] then
+          (if acc = [] then none else some acc.reverse)
+        else go fuel (t.drop (i + 1)) (line :: acc)
+  if text.length > 65535 then none else go (text.length + 1) text []
+
+/-- one "name: value\r\n" line as h2_send_headers_block() reads it -/
+def lineField (line : Bytes) : Option Header :=
+  if line.length < 2 ∨ line.drop (line.length - 2) ≠ [cr, lf] then none
+  else
+    let content := line.take (line.length - 2)
+    match content.idxOf? colon with
+    | none => none
+    | some 0 => none
+    | some i =>
+      let value := (content.drop (i + 1)).dropWhile fun b => b = sp || b = ht
+      if value = [] then none else some (content.take i, value)
+
+/-- h2_send_headers_block() -/
+def blockFields (text : Bytes) : List Header :=
+  match headLines text with
+  | none => [(ofString ":status", ofString "502")]
+  | some lines =>
+    if text.headD 0 = colon then
+      -- first line is ":status: NNN"
+      (ofString ":status", (text.drop 9).take 3) :: (lines.drop 1).filterMap lineField
+    else lines.filterMap lineField
+
+/-- the text h2_send_1xx() builds from the response headers -/
+def interimText (status : Nat) (r : Resp) : Bytes :=
+  ofString ":status: " ++ natToDec status ++
+    (r.arr.filter fun e => e.key ≠ [] ∧ e.value ≠ []).flatMap (fun e =>
+      let name := if e.id ≠ 0 then
+          let row := Extracted.httpHeaderLc.getD e.id []
+          (row ++ List.replicate (32 - row.length) 0).take e.key.length
+        else lower e.key
+      [cr, lf] ++ name ++ [colon, sp] ++ e.value) ++ [cr, lf, cr, lf]
+
+/-- h2_send_1xx() -/
+def interimFields (status : Nat) (r : Resp) : List Header := blockFields (interimText status r)
+
+/-- h2_send_end_stream_trailers(): `none` = no trailers sent (empty DATA frame
+    with END_STREAM instead) -/
+def trailerFields (text : Bytes) : Option (List Header) :=
+  match headLines text with
+  | none => none
+  | some lines =>
+    if lines.any (fun l => l.headD 0 = colon) then none
+    else
+      -- field-names are lower-cased in place up to the first colon of each line
+      let lc := lines.map fun l =>
+        match l.idxOf? colon with
+        | some i => lower (l.take i) ++ l.drop i
+        | none => l
+      some (lc.filterMap lineField)
 
 /-- h2_parse_frame_settings(): what the encoder's table size becomes when the
     peer announces SETTINGS_HEADER_TABLE_SIZE = v (never above the default 4096) -/
@@ -209,10 +287,20 @@ def discardPath (cap : Nat) (c : GConn) (block : Bytes) : GConn :=
 def rstStream (c : GConn) (id : Nat) : GConn :=
   { c with streams := c.streams.map fun (s : Stream) => if s.id = id then { s with isOpen := false, errored := true } else s }
 
+/-- HPACK error of a block the request parser is reading: it counts (GOAWAY) only
+    while the parser still accepts fields; once http_request_parse_header()
+    refused field number `refuseAt` (400/431/...), h2_parse_headers_frame()
+    switches to h2_discard_headers_frame() for the rest, which stops silently.
+    `refuseAt` is an input of the model (the content rules are not modelled). -/
+def servedErr (r : BlockRes) (refuseAt : Option Nat) : Option Err :=
+  match r.err, refuseAt with
+  | some e, some k => if k < r.fields.length then none else some e
+  | e, _ => e
+
 /-- h2_recv_headers() on a merged frame: stream id, END_STREAM flag, PRIORITY
     stream dependency (if the flag is set), header block -/
 def recvHeaders (cap : Nat) (c : GConn) (id : Nat) (endStream : Bool) (dep : Option Nat)
-    (block : Bytes) (keep : Bool) : GConn × Outcome :=
+    (block : Bytes) (keep : Bool) (refuseAt : Option Nat := none) : GConn × Outcome :=
   if id % 2 = 0 then (setGoaway c 1, .nothing)
   else if dep = some id ∧ id > c.cid then (setGoaway c 1, .nothing)
   else if id ≤ c.cid then
@@ -230,7 +318,7 @@ def recvHeaders (cap : Nat) (c : GConn) (id : Nat) (endStream : Bool) (dep : Opt
         let c := { c with streams := c.streams.map fun (x : Stream) => if x.id = id then { x with isOpen := false } else x }
         let r := decodeBlock cap c.dec block
         let c := { c with dec := r.dec }
-        match r.err with
+        match servedErr r refuseAt with
         | none => (c, .trailers id)
         | some e => (setGoaway c (errGoaway e), .trailers id)
   else if c.goaway ≠ 0 then (discardPath cap c block, .discarded id none)
@@ -246,7 +334,7 @@ def recvHeaders (cap : Nat) (c : GConn) (id : Nat) (endStream : Bool) (dep : Opt
   else
     let r := decodeBlock cap c.dec block
     let c := { c with dec := r.dec }
-    match r.err with
+    match servedErr r refuseAt with
     | some e => (setGoaway { c with cid := id } (errGoaway e), .nothing)
     | none =>
       let c := { c with cid := id }
